@@ -148,6 +148,9 @@ func checkC09(c *Ctx) {
 				hasWhere := fs.Has(fTrue(fHas(db + `.Statement.Clauses["WHERE"]`)))
 				markerAbsent, moreThanOne := false, false
 				for f := range fs {
+					if strings.Contains(f, ")@") {
+						continue // positional twin of a has()/is() atom
+					}
 					if strings.HasPrefix(f, "F:has("+db+".Statement.Clauses[") && !strings.Contains(f, `["WHERE"]`) {
 						markerAbsent = true
 						markerKeys[f[len("F:has("+db+".Statement.Clauses["):len(f)-2]] = true
